@@ -123,7 +123,7 @@ func (sc *scenario) add(ev map[string]any, res any, st any) {
 
 // observe projects the live target and records the step.
 func (sc *scenario) observe(ev map[string]any, res any) {
-	proj := sc.s.project()
+	proj := canonMap(sc.s.project())
 	if inf := sc.s.takeInfra(); len(inf) > 0 {
 		sc.infra("%s: %s", kit.JSON(ev), inf[0])
 		return
@@ -374,6 +374,16 @@ func (sc *scenario) appendedRows(proj map[string]any) int {
 	return n
 }
 
+func canonMap(v map[string]any) map[string]any {
+	m, _ := kit.Canon(v).(map[string]any)
+	return m
+}
+
+func (sc *scenario) projectImage(img *vfs.MemFS) (map[string]any, error) {
+	p, err := sc.s.projectImage(img)
+	return canonMap(p), err
+}
+
 // ---- image capture -------------------------------------------------------------------------------
 
 type image struct {
@@ -399,6 +409,64 @@ func (sc *scenario) capture(images *[]image) func(op, name string) {
 
 // pagesIn is the number of install pages a projection shows (message kind).
 func (sc *scenario) pagesIn(proj map[string]any) int { return sc.msg.pagesPresent(proj) }
+
+// pagesDurable tells how many pages of the current import attempt an observed target state
+// shows, given the state before the attempt and the number of WAL syncs seen (a hint: large
+// batches can make the engine sync its log more than once).  Any page prefix is a legal crash
+// state; which one it is only selects the lines written to the trace, TLC then checks that the
+// observed state is exactly that prefix.
+func (sc *scenario) pagesDurable(before, proj map[string]any, syncs, n int) int {
+	if sc.kind == "msg" {
+		p, b := sc.pagesIn(proj), sc.pagesIn(before)
+		if p != b {
+			return p
+		}
+		return min(syncs, p)
+	}
+	match := func(k int) bool { return kit.Diff(sc.metaExpect(before, k), proj) == "" }
+	if syncs <= n && match(syncs) {
+		return syncs
+	}
+	for k := 0; k <= n; k++ {
+		if match(k) {
+			return k
+		}
+	}
+	return min(syncs, n)
+}
+
+// metaExpect is the metadata target after k pages of the exported stream were installed over
+// the state `before` (clear, then cfg.ps entries per page in key order; one page for the
+// byte-slice import).
+func (sc *scenario) metaExpect(before map[string]any, k int) map[string]any {
+	out := map[string]any{"kind": "meta", "other": kit.Bool(before, "other"), "rt": kit.Bool(before, "rt")}
+	users := make([]int64, driverMaxLen)
+	for i, u := range kit.List(before, "users") {
+		if i < driverMaxLen {
+			users[i] = kit.ToInt(u)
+		}
+	}
+	if k >= 1 {
+		for i := range users {
+			users[i] = 0
+		}
+		out["rt"] = false
+		if sc.api == "bytes" {
+			copy(users, sc.users)
+			out["rt"] = sc.meta.srcRt
+		} else {
+			set := 0
+			for i, v := range sc.users {
+				if v != 0 && set < (k-1)*sc.ps {
+					users[i] = v
+					set++
+				}
+			}
+		}
+	}
+	out["users"] = users
+	return canonMap(out)
+}
 
 // importLines returns the trace lines of an import of which `k` pages became durable out of n.
 func importLines(k, n int, doneStats any, pageTypes []string) []kit.Step {
@@ -473,17 +541,25 @@ func (sc *scenario) doImport(rec *kit.Recorder, attempts *int) bool {
 		}
 		lines := importLines(n, n, out["stats"], types)
 		sc.setRetry(lines, retry)
-		proj := sc.s.project()
+		proj := canonMap(sc.s.project())
 		lines[len(lines)-1].St = proj
 		sc.lastProj = proj
 		sc.steps = append(sc.steps, lines...)
 		sc.r.rep.Cover("drv:Import")
+		// a restore that returned is durable: power is lost right after the call, nothing unsynced survives
+		if mode == 1 {
+			img := sc.s.targetFS().mem.CrashClone(vfs.CrashCloneCfg{})
+			if err := sc.s.adoptImage(img); err != nil {
+				sc.infra("power-loss image after a completed import does not open: %v", err)
+				return false
+			}
+			sc.observe(kit.Ev("Restart", "how", "power loss after the import returned"), map[string]any{"ok": true})
+			sc.r.rep.Cover("drv:PowerLossAfterImport")
+		}
 	case mode == 2:
 		k := sc.rng.IntN(n) // 0 .. n-1 pages
 		syncs := 0
-		var ops []string
 		out, err := sc.s.importBytes(data, k, func(op, name string) {
-			ops = append(ops, op+" "+name)
 			if op == "sync" && strings.HasSuffix(name, ".log") {
 				syncs++
 			}
@@ -492,11 +568,7 @@ func (sc *scenario) doImport(rec *kit.Recorder, attempts *int) bool {
 			sc.infra("cancelled import: %v", err)
 			return false
 		}
-		if sc.kind == "msg" && kit.Str(out, "err") != "" {
-			if p := sc.pagesIn(sc.s.project()); p > max(syncs, sc.pagesIn(sc.lastProj)) {
-				sc.infra("DEBUG cancelled import after %d: %d pages present, %d WAL syncs, before %d; ops %v; out %v", k, p, syncs, sc.pagesIn(sc.lastProj), ops, out)
-			}
-		}
+		before := sc.lastProj
 		kind := []string{"abort", "restart"}[sc.rng.IntN(2)]
 		if kind == "restart" {
 			if err := sc.s.restart(); err != nil {
@@ -508,7 +580,7 @@ func (sc *scenario) doImport(rec *kit.Recorder, attempts *int) bool {
 			sc.infra("a good stream was rejected: %v", out)
 			return false
 		}
-		proj := sc.s.project()
+		proj := canonMap(sc.s.project())
 		sc.lastProj = proj
 		if kit.Str(out, "err") == "" {
 			// completed before it looked at the context again
@@ -522,13 +594,14 @@ func (sc *scenario) doImport(rec *kit.Recorder, attempts *int) bool {
 			sc.steps = append(sc.steps, lines...)
 			break
 		}
-		// pages durable = WAL syncs the call performed (every install page is one synchronous batch)
-		lines := importLines(min(syncs, n-1), n, nil, types)
+		k = min(sc.pagesDurable(before, proj, syncs, n), n-1)
+		lines := importLines(k, n, nil, types)
 		sc.setRetry(lines, retry)
-		lines = append(lines, kit.Step{Ev: kit.Ev("Crash", "kind", kind, "after", min(syncs, n-1), "res", map[string]any{"ok": true}), St: proj})
+		lines = append(lines, kit.Step{Ev: kit.Ev("Crash", "kind", kind, "after", k, "how", fmt.Sprintf("cancelled (%d WAL syncs)", syncs), "res", map[string]any{"ok": true}), St: proj})
 		sc.steps = append(sc.steps, lines...)
 		sc.r.rep.Cover("drv:ImportCancelled")
 	default:
+		before := sc.lastProj
 		var images []image
 		syncsAt := []int{}
 		syncs := 0
@@ -560,7 +633,7 @@ func (sc *scenario) doImport(rec *kit.Recorder, attempts *int) bool {
 				}
 			}
 			img := images[i]
-			proj, err := sc.s.projectImage(img.fs)
+			proj, err := sc.projectImage(img.fs)
 			if err != nil {
 				sc.infra("power-loss image before %q does not open: %v", img.op, err)
 				return false
@@ -569,21 +642,14 @@ func (sc *scenario) doImport(rec *kit.Recorder, attempts *int) bool {
 				sc.infra("power-loss image before %q: %s", img.op, inf[0])
 				return false
 			}
-			// pages durable in the image: at least the completed WAL syncs; the projection says more
-			// precisely for the message kind (unsynced data may have survived)
-			k := syncsAt[i]
-			if sc.kind == "msg" {
-				if p := sc.pagesIn(proj); p > k || img.pct == 0 {
-					k = max(k, p)
-				}
-			}
+			k := sc.pagesDurable(before, proj, syncsAt[i], n)
 			var lines []kit.Step
 			if k >= n {
 				lines = importLines(n, n, out["stats"], types)
 				lines = append(lines, kit.Step{Ev: kit.Ev("Restart", "res", map[string]any{"ok": true}), St: proj})
 			} else {
 				lines = importLines(k, n, nil, types)
-				lines = append(lines, kit.Step{Ev: kit.Ev("Crash", "kind", "restart", "after", k, "res", map[string]any{"ok": true}), St: proj})
+				lines = append(lines, kit.Step{Ev: kit.Ev("Crash", "kind", "restart", "after", k, "how", fmt.Sprintf("power loss before %s keeping %d%% of the unsynced data (%d WAL syncs done)", img.op, img.pct, syncsAt[i]), "res", map[string]any{"ok": true}), St: proj})
 			}
 			sc.setRetry(lines, retry)
 			if j > 0 {
@@ -646,6 +712,14 @@ func (sc *scenario) doDiscard(rec *kit.Recorder) bool {
 			return false
 		}
 		sc.observe(kit.Ev("Discard"), map[string]any{"ok": true})
+		if sc.rng.IntN(2) == 0 && !sc.failed {
+			img := sc.s.targetFS().mem.CrashClone(vfs.CrashCloneCfg{})
+			if err := sc.s.adoptImage(img); err != nil {
+				sc.infra("power-loss image after a completed discard does not open: %v", err)
+				return false
+			}
+			sc.observe(kit.Ev("Restart", "how", "power loss after the discard returned"), map[string]any{"ok": true})
+		}
 		return !sc.failed
 	}
 	var images []image
@@ -667,7 +741,7 @@ func (sc *scenario) doDiscard(rec *kit.Recorder) bool {
 				continue
 			}
 		}
-		proj, err := sc.s.projectImage(images[i].fs)
+		proj, err := sc.projectImage(images[i].fs)
 		if err != nil {
 			sc.infra("power-loss image before %q does not open: %v", images[i].op, err)
 			return false
@@ -835,7 +909,7 @@ func (r *runner) scenario(rec *kit.Recorder, idx int, kind, api string, ps int) 
 	if sc.meta != nil {
 		sc.meta.tgtUsers = make([]int64, driverMaxLen)
 	}
-	proj := sc.s.project()
+	proj := canonMap(sc.s.project())
 	sc.lastProj = proj
 	sc.steps = append(sc.steps, kit.Step{Ev: map[string]any{"a": "Init", "cfg": cfg, "maxLen": driverMaxLen}, St: proj})
 
